@@ -3,6 +3,7 @@ import contextlib
 import os
 
 from mc import core, e1, e2, fsshim, tf, world, seams
+from mc.checks import createx
 from mc.ref import bencode, bep, model
 
 REAL_B = e1.REAL_B
@@ -135,20 +136,65 @@ class CreateCheck:
             "2 (thorough also 4): every byte size up to 2P+1 (thorough 4P+1); "
             "transfers to B=16384 by the parametricity argument + conformance "
             "replay of S worlds at R, not by proof",
+            "process environment: every creator configuration of the property "
+            "x progress 0/1/2 x library and command line, on a directory and "
+            "a single file with a file of 160 blocks + 7 bytes (the progress "
+            "percentage does not move on every block), piece length 32 KiB "
+            "and 4 MiB (all files within one piece), in a child interpreter "
+            "under every member of envrun.ENVS (terminal widths 30/12/200, "
+            "-O, ASCII filesystem encoding / POSIX locale, stdout closed / "
+            "/dev/full / file / ASCII-only / a regular file under an 8 KiB "
+            "RLIMIT_FSIZE, removed cwd, -W error, debug switch, recursion / "
+            "descriptor limits, umasks, no HOME, time zone, small io "
+            "buffer); reading: a metafile that results must be a true one "
+            "(C10: delivered partners must agree); an operation that refuses "
+            "without leaving a metafile is not judged, except in the default "
+            "environment",
+            "library surface, host tracker: a sub-class of each creator whose "
+            "get_progress_tracker returns the host's own object (update "
+            "returns None / its argument / a running total / 0 / raises at "
+            "call 1 or 3; 2000-call budget), progress 0/1/2, single files and "
+            "every 3-file vector over {5, B+1, P+7232}; a metafile that "
+            "results must be a true one, raising is not judged",
+            "library surface, host callback: a bound method registered with "
+            "set_callback on the creator class or on the hasher class "
+            "(class level, so a later command-line create in the process "
+            "sees it) that returns, or lets a StopIteration escape at call "
+            "k (every k up to the number of pieces + 1), or a ValueError at "
+            "the first / last call; a create that returns must have written "
+            "a true metafile, raising is not judged",
+            "library surface, two hashers alive at once in one thread: every "
+            "schedule of the next() calls of two iterators of one class and "
+            "piece length over different payloads (outputs and final "
+            "attributes must equal the sequential ones), and every placement "
+            "(with repetition) of the next() calls of a second iterator "
+            "inside the progress updates of a creator (host tracker that "
+            "re-enters the library; the creator's metafile is judged by the "
+            "property's oracle, the inner iterator against its sequential "
+            "output; C10 also at hasher level); no threads",
             "no symlinks / special files; payload bytes contain no zero byte",
             "reference BEP 52 model: two independent formulations asserted "
             "equal on every file hashed",
         ]
         self.nontrivial_rule = (
             "a world is non-trivial if its payload is not empty; a fault "
-            "exploration run if a fault was injected; counted = distinct such "
-            "worlds / choice vectors")
+            "exploration run if a fault was injected; an environment child if "
+            "the environment is not the default one; a host tracker / "
+            "callback / interleaving case always (a host object is "
+            "installed); counted = distinct such worlds / choice vectors / "
+            "cases")
         self.rule = (
             "nested product: scale x piece length x shape x size vector "
             "(boundary alphabet in R, every integer size in S) [x creator]; a "
             "state is one distinct world (scale,P,shape,sizes); a transition "
             "is one execution of a creator of the real code; every written "
-            "metafile is decoded and compared with the reference model")
+            "metafile is decoded and compared with the reference model; plus "
+            "enumerated axes on fixed sub-catalogues: process environment "
+            "(envrun.ENVS x creator x progress x route, one child per "
+            "environment), host tracker form x progress, host callback "
+            "behaviour x registration x route, and all interleaving "
+            "schedules of two live hashers (counter "
+            "interleaving_schedules)")
 
     # ---------------------------------------------------------------- groups
     def groups(self, tier, seed):
@@ -414,6 +460,8 @@ class CreateCheck:
                                    "P": P, "shape": sh, "alpha": alpha,
                                    "first": g["first"], "seed": seed,
                                    "listing": "native"})
+        # the process environment and the library surface (createx)
+        gs += createx.groups(pid, tier, seed)
         return gs
 
     # ------------------------------------------------------------- execution
@@ -722,6 +770,8 @@ class CreateCheck:
     def run_group(self, g):
         if g["kind"] == "iofault":
             return self.run_iofault(g)
+        if g["kind"] in createx.RUNNERS:
+            return createx.run(self, g)
         res = core.Result()
         seed = g["seed"]
         if g["kind"] == "dense":
@@ -801,6 +851,8 @@ class CreateCheck:
         return res
 
     def replay(self, case):
+        if case.get("kind") in createx.RUNNERS:
+            return createx.replay(self, case)
         if case.get("kind") == "iofault":
             r = self.run_iofault({"label": case["label"],
                                   "progress": case["progress"],
